@@ -1,4 +1,5 @@
 """C07 — each operand is evaluated at most once, left to right, in bounded work."""
+import json
 from celmodel.values import I, U, D, S, B, L, top_outcome, is_crash
 from celmodel.refeval import all_outcomes, Unsupported
 from celmodel.hostmodel import make_host
@@ -203,6 +204,15 @@ def judge(res, case, rec, e, variables, family):
         res.nt(case["src"] + repr(case.get("vars")))
     res.count("host_calls_logged", len(log or []))
     if match is None:
+        # an argument-conversion error of a host function: evaluating the remaining arguments before
+        # reporting it is still "at most once, in source order" - accept a log that extends the reference's
+        for o, ev in outs:
+            el = norm_log(ev.log)
+            if o[0] == 'err' and o[1] in ('type', 'arg_count') and same_outcome(o, obs) and log[:len(el)] == el:
+                tags = [json.dumps(x) for x in log if x and x[0] == 't']
+                if len(tags) == len(set(tags)):
+                    res.count("accepted:eager-arguments-after-mismatch")
+                    return
         if not complete and not is_crash(obs):
             res.count("skipped:map-order-unbounded")
             return
